@@ -58,6 +58,7 @@ import (
 
 	"github.com/ovh/kmip-go"
 	"github.com/ovh/kmip-go/kmipclient"
+	"github.com/ovh/kmip-go/payloads"
 
 	"verifharness/internal/model"
 	"verifharness/internal/report"
@@ -68,7 +69,11 @@ import (
 // scenario specification (one token, no spaces): fam:n:pt:srv:faults:next:seed
 
 type lcSpec struct {
-	fam    string // c10 | flt | neg | cls | rty | win | dlk | dry
+	fam    string // c10 | flt | neg | cls | rty | win | dlk | api | dry
+	entry  string // API entry point used for the calls of the scenario ("fam@entry"): "" = Activate(id).ExecContext ;
+	// batch | then | rt | req (Batch, Executor.Then chain, Roundtrip, Request) ; mw | mwto (client with the library's
+	// middlewares; mwto: a short TimeoutMiddleware ends the abandoned call) ; clone | clone2 (the scenario runs on a
+	// Clone of the warmed-up client; clone2: the original stays open with an exchange pending) ; cluster (DialCluster)
 	n      int    // c10: callers ; rty: number of connections the server drops ; cls: 0 sync / 1 async Close ; win: polling goroutines
 	pt     string // yield point (short name), timeout | inWrite | queued (c10), or "-"
 	srv    string // c10: when the victim's request is answered: early | late | never ; rty: how the server drops: eof | closed
@@ -86,7 +91,11 @@ func (s *lcSpec) String() string {
 		}
 		fs = strings.Join(parts, "+")
 	}
-	return fmt.Sprintf("%s:%d:%s:%s:%s:%s:%d", s.fam, s.n, s.pt, s.srv, fs, s.next, s.seed)
+	fam := s.fam
+	if s.entry != "" {
+		fam += "@" + s.entry
+	}
+	return fmt.Sprintf("%s:%d:%s:%s:%s:%s:%d", fam, s.n, s.pt, s.srv, fs, s.next, s.seed)
 }
 
 func lcParseFault(s string) (*lcFault, error) {
@@ -132,6 +141,9 @@ func lcParseSpec(s string) (*lcSpec, error) {
 		return nil, errors.New("bad spec")
 	}
 	sp := &lcSpec{fam: p[0], pt: p[2], srv: p[3], next: p[len(p)-2]}
+	if i := strings.Index(sp.fam, "@"); i >= 0 {
+		sp.fam, sp.entry = sp.fam[:i], sp.fam[i+1:]
+	}
 	var err error
 	if sp.n, err = strconv.Atoi(p[1]); err != nil {
 		return nil, err
@@ -157,6 +169,7 @@ var lcPoints = map[string]string{
 	"afterSend":       "cli.roundtrip.afterSend",
 	"beforeRx":        "cli.read.beforeRx",
 	"beforeErr":       "cli.write.beforeErr",
+	"reported":        "cli.write.reported",
 	"afterCancel":     "cli.terminate.afterCancel",
 	"beforeReconnect": "cli.beforeReconnect",
 }
@@ -201,6 +214,9 @@ type lcEnv struct {
 	srv        *lcServer
 	dir        *lcDirector
 	cl         *kmipclient.Client
+	orig       *kmipclient.Client // entry clone / clone2: the client the scenario's client was cloned from
+	origCall   *lcCall            // clone2: the exchange pending on the original while the scenario runs on the clone
+	dialOffset int                // dial attempts that are not the scenario client's (the Clone's own dial)
 	res        *lcResult
 	base       int // client goroutines before the scenario
 	phases     []*lcPhase
@@ -213,6 +229,7 @@ type lcEnv struct {
 	mu         sync.Mutex
 	termObjs   map[string]bool // connections seen at cli.terminate.afterCancel
 	exactDials bool            // the dial count is part of the canonical outcome
+	noModel    bool            // the run is not comparable with the model (no membership line)
 	r          *rng.R
 }
 
@@ -371,23 +388,109 @@ type lcCall struct {
 	done    chan struct{}
 }
 
-// start issues Activate(id) in a goroutine.
+// lcBaseID: the identifiers of the items of one batch call are id, id#2, id#3, ...; the call is known by the first.
+func lcBaseID(id string) string {
+	if i := strings.Index(id, "#"); i >= 0 {
+		return id[:i]
+	}
+	return id
+}
+
+// lcActivateIDs returns the identifiers echoed by the items of a batch result (position by position).
+func lcActivateIDs(items []kmip.ResponseBatchItem) ([]string, error) {
+	var got []string
+	for i := range items {
+		if err := items[i].Err(); err != nil {
+			return nil, err
+		}
+		pl, ok := items[i].ResponsePayload.(*payloads.ActivateResponsePayload)
+		if !ok {
+			return nil, fmt.Errorf("item %d: unexpected payload %T", i, items[i].ResponsePayload)
+		}
+		got = append(got, pl.UniqueIdentifier)
+	}
+	return got, nil
+}
+
+// invoke performs one call through the API entry point of the scenario; it returns the identifiers the call asked
+// for and the identifiers it was answered with, position by position.
+func (e *lcEnv) invoke(cl *kmipclient.Client, ctx context.Context, id string) (want, got []string, err error) {
+	act := func(x string) *payloads.ActivateRequestPayload {
+		return &payloads.ActivateRequestPayload{UniqueIdentifier: x}
+	}
+	switch e.spec.entry {
+	case "batch":
+		want = []string{id, id + "#2", id + "#3"}
+		res, err := cl.Batch(ctx, act(want[0]), act(want[1]), act(want[2]))
+		if err != nil {
+			return want, nil, err
+		}
+		got, err = lcActivateIDs(res)
+		return want, got, err
+	case "then":
+		// two chains extending the same prefix; the first is executed after the second has been built
+		want = []string{id, id + "#2", id + "#3", id + "#4"}
+		base := cl.Activate(want[0]).
+			Then(func(c *kmipclient.Client) kmipclient.PayloadBuilder { return c.Activate(want[1]) }).
+			Then(func(c *kmipclient.Client) kmipclient.PayloadBuilder { return c.Activate(want[2]) })
+		x := base.Then(func(c *kmipclient.Client) kmipclient.PayloadBuilder { return c.Activate(want[3]) })
+		_ = base.Then(func(c *kmipclient.Client) kmipclient.PayloadBuilder { return c.Activate(id + "#other") })
+		res, err := x.ExecContext(ctx)
+		if err != nil {
+			return want, nil, err
+		}
+		got, err = lcActivateIDs(res)
+		return want, got, err
+	case "rt":
+		want = []string{id}
+		msg := kmip.NewRequestMessage(cl.Version(), act(id))
+		resp, err := cl.Roundtrip(ctx, &msg)
+		if err != nil {
+			return want, nil, err
+		}
+		if resp == nil {
+			return want, nil, errors.New("nil response without error")
+		}
+		got, err = lcActivateIDs(resp.BatchItem)
+		return want, got, err
+	case "req":
+		want = []string{id}
+		pl, err := cl.Request(ctx, act(id))
+		if err != nil {
+			return want, nil, err
+		}
+		if a, ok := pl.(*payloads.ActivateResponsePayload); ok {
+			return want, []string{a.UniqueIdentifier}, nil
+		}
+		return want, nil, fmt.Errorf("unexpected payload %T", pl)
+	default:
+		want = []string{id}
+		resp, err := cl.Activate(id).ExecContext(ctx)
+		if err != nil {
+			return want, nil, err
+		}
+		return want, []string{resp.UniqueIdentifier}, nil
+	}
+}
+
+// start issues one call carrying the identifier id (through the entry point of the scenario) in a goroutine.
 func (e *lcEnv) start(ctx context.Context, id string) *lcCall {
+	return e.startOn(e.cl, ctx, id)
+}
+
+func (e *lcEnv) startOn(cl *kmipclient.Client, ctx context.Context, id string) *lcCall {
 	c := &lcCall{id: id, done: make(chan struct{})}
 	w0 := e.net.frames.Load() - e.net.whole.Load()
 	f0 := e.firedCount()
 	go func() {
 		defer close(c.done)
 		type out struct {
-			id  string
-			err error
+			want, got []string
+			err       error
 		}
 		r, p := guard("Activate", func() out {
-			resp, err := e.cl.Activate(id).ExecContext(ctx)
-			if err != nil {
-				return out{"", err}
-			}
-			return out{resp.UniqueIdentifier, nil}
+			want, got, err := e.invoke(cl, ctx, id)
+			return out{want, got, err}
 		})
 		c.partial = max(0, e.net.frames.Load()-e.net.whole.Load()-w0)
 		c.tx = e.net.txOf(id)
@@ -399,12 +502,12 @@ func (e *lcEnv) start(ctx context.Context, id string) *lcCall {
 			e.res.violate("C11", "no-panic", "lts.cli:panic "+panicKey(p), p)
 		case r.err != nil:
 			c.outcome, c.err = "err", r.err
-		case r.id == id:
+		case fmt.Sprint(r.got) == fmt.Sprint(r.want):
 			c.outcome = "ok"
 		default:
 			c.outcome = "foreign"
 			e.res.violate("C10", "own-response", "lts.cli:foreign-response",
-				fmt.Sprintf("call %q received the response to %q", id, r.id))
+				fmt.Sprintf("call %q asked for %v and received the response to %v", id, r.want, r.got))
 		}
 	}()
 	return c
@@ -498,10 +601,49 @@ func (e *lcEnv) closeClient() {
 
 // finish: Close if needed, idempotent Close, goroutine check, reuse check, outcome rendering, cleanup.
 func (e *lcEnv) finish(abandoned map[string]bool) {
+	if e.origCall != nil {
+		// clone2: the exchange that has been pending on the original client all along gets its (own) response now,
+		// whatever has happened to the clone
+		e.srv.open(e.origCall.id)
+		e.wait(e.origCall)
+		if e.origCall.outcome == "err" {
+			e.res.violate("C11", "recovers", "lts.cli:original-fails-because-of-clone",
+				fmt.Sprintf("call %q pending on the original client failed (%v) although nothing happened to its connection: only its Clone was used, faulted or closed", e.origCall.id, e.origCall.err))
+		}
+	}
 	if e.cl != nil && !e.closed.Load() {
 		p := e.begin("K")
 		_ = p
 		e.closeClient()
+	}
+	if e.orig != nil {
+		if e.origCall != nil {
+			// closing the clone has not closed the original: it still serves a call, on the connection it had
+			d0 := e.net.dialCount()
+			c := e.startOn(e.orig, context.Background(), e.id("o"))
+			e.wait(c)
+			if c.outcome == "err" {
+				e.res.violate("C11", "recovers", "lts.cli:original-fails-because-of-clone",
+					fmt.Sprintf("call %q on the original client failed (%v) after its Clone had been closed", c.id, c.err))
+			} else if c.outcome == "ok" && e.net.dialCount() != d0 {
+				e.res.violate("C11", "recovers", "lts.cli:original-lost-its-connection",
+					"the original client had to dial again after its Clone had been used and closed: they shared a connection")
+			}
+		}
+		_, p := guard("Close", func() error { return e.orig.Close() })
+		if p != "" {
+			e.res.violate("C11", "no-panic", "lts.cli:panic-in-close "+panicKey(p), p)
+		}
+	}
+	// one exchange at a time on a connection: no request reaches the server on a connection on which the reply to an
+	// earlier request is still owed, unless the caller of that earlier request has given up (then the connection must
+	// not be used at all: next oracle)
+	for _, ov := range e.srv.overlapList() {
+		if !abandoned[ov.owed] && lcBaseID(ov.owed) != lcBaseID(ov.new) {
+			e.res.violate("C10", "one-exchange-at-a-time", "lts.cli:two-exchanges-on-one-connection",
+				fmt.Sprintf("connection %d: request %q reached the server while the reply to %q, whose caller was still waiting, had not been sent", ov.conn, ov.new, ov.owed))
+			break
+		}
 	}
 	if e.cl != nil {
 		if n := lcSettle(e.base, lcWaitEvent); n > e.base {
@@ -605,9 +747,12 @@ func (e *lcEnv) render() {
 	// (closed clients, failed dials); elsewhere the model accepts any number.
 	d := "*"
 	if e.exactDials {
-		d = strconv.Itoa(e.net.dialCount())
+		d = strconv.Itoa(e.net.dialCount() - e.dialOffset)
 	}
 	e.res.Outcome = strings.Join(out, ";") + "|d" + d
+	if e.noModel {
+		e.res.Scenario = ""
+	}
 }
 
 func (e *lcEnv) dial(enforce bool) error {
@@ -618,6 +763,29 @@ func (e *lcEnv) dial(enforce bool) error {
 	if enforce {
 		opts = append(opts, kmipclient.EnforceVersion(kmip.V1_4))
 	}
+	switch e.spec.entry {
+	case "mw", "mwto":
+		// the library's own middlewares, and one of the harness that only passes on
+		to := time.Hour
+		if e.spec.entry == "mwto" {
+			to = lcMwTimeout()
+		}
+		var n atomic.Int64
+		opts = append(opts, kmipclient.WithMiddlewares(
+			kmipclient.CorrelationValueMiddleware(func() string { return fmt.Sprintf("corr-%d", n.Add(1)) }),
+			kmipclient.DebugMiddleware(io.Discard, nil),
+			func(next kmipclient.Next, ctx context.Context, msg *kmip.RequestMessage) (*kmip.ResponseMessage, error) {
+				return next(ctx, msg)
+			},
+			kmipclient.TimeoutMiddleware(to),
+		))
+	}
+	dialFn := func() (*kmipclient.Client, error) { return kmipclient.Dial("pipe", opts...) }
+	if e.spec.entry == "cluster" {
+		dialFn = func() (*kmipclient.Client, error) {
+			return kmipclient.DialCluster([]string{"pipe", "pipe2"}, append(opts, kmipclient.WithRetryTimeout(time.Millisecond))...)
+		}
+	}
 	type out struct {
 		cl  *kmipclient.Client
 		err error
@@ -625,7 +793,7 @@ func (e *lcEnv) dial(enforce bool) error {
 	done := make(chan out, 1)
 	go func() {
 		r, p := guard("Dial", func() out {
-			cl, err := kmipclient.Dial("pipe", opts...)
+			cl, err := dialFn()
 			return out{cl, err}
 		})
 		if p != "" {
@@ -695,6 +863,68 @@ func (e *lcEnv) warm() bool {
 	if n := lcClientGoroutines(); n <= e.base {
 		e.res.Fail = fmt.Sprintf("goroutine oracle is blind: no goroutine started by %s is visible while a connection is open (%d before Dial, %d now)", lcClientPkg, e.base, n)
 		return false
+	}
+	if e.spec.entry == "clone" || e.spec.entry == "clone2" {
+		return e.warmClone()
+	}
+	return true
+}
+
+// lcMwTimeout: the deadline the TimeoutMiddleware of entry mwto puts on every call (long against an exchange, so
+// that only a call the server does not answer runs into it).
+func lcMwTimeout() time.Duration { return max(60*time.Millisecond, 100*lcPause) }
+
+// warmClone: the scenario runs on a Clone of the warmed-up client. clone: the original is closed at once (which must
+// not affect the clone); clone2: the original stays open with an exchange pending on ITS connection (the reply is
+// withheld until the end of the scenario). The clone performs one exchange of its own, so that its connection has
+// the I/O history the fault indices of the scenario assume; the faults of the scenario are shifted to the clone's
+// connection (index 1) and its dial attempts by one.
+func (e *lcEnv) warmClone() bool {
+	type out struct {
+		cl  *kmipclient.Client
+		err error
+	}
+	r, p := guard("Clone", func() out {
+		cl, err := e.cl.CloneCtx(context.Background())
+		return out{cl, err}
+	})
+	if p != "" {
+		e.res.violate("C11", "no-panic", "lts.cli:panic-in-clone "+panicKey(p), p)
+		e.res.Fail = "Clone panicked"
+		return false
+	}
+	if r.err != nil || r.cl == nil {
+		e.res.Fail = fmt.Sprintf("Clone failed: %v", r.err)
+		return false
+	}
+	e.orig, e.cl = e.cl, r.cl
+	e.dialOffset = e.net.dialCount() - 1
+	if e.spec.entry == "clone" {
+		if _, p := guard("Close", func() error { return e.orig.Close() }); p != "" {
+			e.res.violate("C11", "no-panic", "lts.cli:panic-in-close "+panicKey(p), p)
+		}
+		e.orig = nil
+	} else {
+		hid := e.id("o")
+		e.srv.gate(hid)
+		e.origCall = e.startOn(e.orig, context.Background(), hid)
+		dl := time.Now().Add(lcWaitEvent)
+		for e.srv.seenCount(hid) == 0 && time.Now().Before(dl) {
+			time.Sleep(50 * time.Microsecond)
+		}
+	}
+	c := e.plain(e.begin("p"), true)
+	if c.conn == 0 && e.spec.entry == "clone2" {
+		e.res.violate("C10", "one-exchange-at-a-time", "lts.cli:clone-shares-connection",
+			fmt.Sprintf("the Clone's call %q reached the server on the connection of the client it was cloned from, on which the reply to %q is owed", c.id, e.origCall.id))
+		return false
+	}
+	if c.outcome != "ok" {
+		e.res.Fail = "warm-up call of the clone failed: " + c.outcome
+		return false
+	}
+	for _, f := range e.spec.faults {
+		f.conn++
 	}
 	return true
 }
@@ -853,7 +1083,11 @@ func (e *lcEnv) c10Round(round int, deadline bool, abandoned map[string]bool) (b
 		for _, c := range fl {
 			e.wait(c)
 			ph.record('p', c)
-			if c.outcome == "err" {
+			if c.outcome == "err" && e.spec.entry == "mwto" && errors.Is(c.err, context.DeadlineExceeded) {
+				// the follower itself ran into the TimeoutMiddleware's deadline (a slow machine): no verdict
+				e.noModel = true
+				e.res.Counts = append(e.res.Counts, "mwto.follower-timeout")
+			} else if c.outcome == "err" {
 				e.res.violate("C11", "recovers", "lts.cli:call-fails-without-fault",
 					fmt.Sprintf("call %q failed (%v) although only another caller's context ended", c.id, c.err))
 			}
@@ -897,9 +1131,14 @@ func (e *lcEnv) c10Round(round int, deadline bool, abandoned map[string]bool) (b
 
 	switch spec.pt {
 	case "timeout":
-		c2, cancel := context.WithTimeout(context.Background(), max(15*time.Millisecond, 20*lcPause))
-		defer cancel()
-		ctx = c2
+		if spec.entry == "mwto" {
+			// the deadline is the one the library's TimeoutMiddleware puts on the call
+			ctx = context.Background()
+		} else {
+			c2, cancel := context.WithTimeout(context.Background(), max(15*time.Millisecond, 20*lcPause))
+			defer cancel()
+			ctx = c2
+		}
 		hit()
 	case "inWrite":
 		var mu sync.Mutex
@@ -972,6 +1211,14 @@ func (e *lcEnv) c10Round(round int, deadline bool, abandoned map[string]bool) (b
 		ok = true
 	case <-v.done: // the point was not reached (e.g. no response for beforeRx): the call ended otherwise
 	case <-time.After(lcWaitEvent):
+	}
+	if spec.entry == "mwto" {
+		// every call of this client carries the middleware's deadline from the moment it is issued: the followers are
+		// issued once the abandoned call has returned (a caller queued behind it would use up its own deadline)
+		select {
+		case <-v.done:
+		case <-time.After(lcCallLimit):
+		}
 	}
 	fl := followers(ph, n-1)
 	if spec.srv == "late" {
@@ -1147,8 +1394,20 @@ func lcRunNeg(e *lcEnv) {
 	e.exactDials = true
 	e.arm(spec.faults...)
 	e.begin("n") // the dial of DialContext, its connection installed, then the negotiation call
+	if spec.srv == "badver" {
+		// nothing fails: the server's versions and the client's have nothing in common. Dial gives up a HEALTHY
+		// connection, which it has to close (its goroutines end, the transport is closed). Not a run of the model.
+		e.srv.noCommonVersion.Store(true)
+		e.noModel = true
+	}
 	err := e.dial(false)
 	ph := e.phases[0]
+	if spec.srv == "badver" {
+		if err == nil {
+			e.res.Fail = "Dial succeeded although the server offered no version the client has"
+		}
+		e.res.Nontrivial = err != nil
+	}
 	if e.net.connCount() == 0 && err != nil {
 		// the dialer itself failed: no client, no negotiation
 		ph.errP++
@@ -1168,6 +1427,21 @@ func lcRunNeg(e *lcEnv) {
 		if n := lcSettle(e.base, lcWaitEvent); n > e.base {
 			e.res.violate("C11", "no-goroutine-left", "lts.cli:goroutines-after-failed-dial",
 				fmt.Sprintf("%d goroutine(s) started by the client still running %v after Dial returned an error: %s", n-e.base, lcWaitEvent, lcGoroutineDump()))
+		}
+		// ... and the transport of every connection it had dialed has been closed by the client
+		e.net.mu.Lock()
+		conns := append([]*lcConn(nil), e.net.conns...)
+		e.net.mu.Unlock()
+		for _, c := range conns {
+			dl := time.Now().Add(lcWaitEvent)
+			for !c.cclosed.Load() && time.Now().Before(dl) {
+				time.Sleep(100 * time.Microsecond)
+			}
+			if !c.cclosed.Load() {
+				e.res.violate("C11", "no-goroutine-left", "lts.cli:connection-open-after-failed-dial",
+					fmt.Sprintf("connection %d was not closed by the client within %v after Dial had returned an error", c.idx, lcWaitEvent))
+				break
+			}
 		}
 		e.render()
 		lcEnvCur.Lock()
@@ -1283,16 +1557,23 @@ func lcRunRty(e *lcEnv) {
 
 // C11, the window closed by "terminate before reporting a write error": the Write of call K1 fails (the read side of
 // the connection stays healthy) while K2 is waiting for the client. K2 runs as soon as K1 has returned and must
-// find the connection terminated. Between the report of the error and the cancellation of the connection context
-// there is no yield point, so the window is opened from outside, without touching the client: while the write loop
-// is at cli.write.beforeErr the harness takes the mutex INSIDE the connection context (found by type, by
-// reflection: the *conn's context.Context field, then that context's sync.Mutex field), which makes the write loop's
-// cancel() wait; it gives the mutex up at the moment a second contender arrives behind the write loop — K2 asking
-// the context for Err() — so that K2 reads the state of the context BEFORE the cancellation, exactly as in the run
-// the repair excludes. On the code as it is nobody comes (K1 has not returned), the mutex is given up after a few
-// pauses and the only effect is that K1 returns later. n > 0 selects the older, statistical variant: n goroutines
-// polling Err(). Both rest on cancelCtx taking its mutex in cancel() and Err(); `win.window` counts what happened
-// (second = opened for a second contender, late = it was already parked, nobody, polled, no-context).
+// find the connection terminated.
+//
+//	n = 0 (the directed schedule): the write loop is HELD at the yield point cli.write.reported — right after it has
+//	    reported the failure to K1 — until K2 has returned (bounded). On the code as it is the connection has been
+//	    terminated before the report, K2 reconnects and succeeds while the write loop stands still. If the report comes
+//	    first (2c3eae7 undone) the connection is still live at that point: K2 finds it usable, hands its request over to
+//	    a write loop that will never take it, and fails with the old error once the write loop is let go.
+//	n = 1 (fallback, for a variant in which no yield point lies between the report and the termination): the window is
+//	    opened from outside — while the write loop is at cli.write.beforeErr the harness takes the mutex INSIDE the
+//	    connection context (found by type, by reflection), which makes the write loop's cancel() wait, and gives it up
+//	    at the moment a second contender arrives behind the write loop — K2 asking the context for Err(). Rests on
+//	    cancelCtx taking its mutex in cancel() and Err() and on the layout of sync.Mutex (if either changes the
+//	    window is merely not opened: counter win.window).
+//	n > 1 (older statistical variant): n goroutines polling Err().
+//
+// `win.window` counts what happened (yield = held at cli.write.reported; second = opened for a second contender,
+// late, nobody, polled, no-context, not-reached).
 func lcRunWin(e *lcEnv) {
 	if !e.warm() {
 		e.finish(nil)
@@ -1315,6 +1596,9 @@ func lcRunWin(e *lcEnv) {
 	window := make(chan string, 1)
 	pb := lcPoints["beforeErr"]
 	e.dir.on(pb, e.dir.hitCount(pb), func() {
+		if spec.n == 0 {
+			return // the schedule is directed at cli.write.reported
+		}
 		obj := e.dir.lastObj(pb)
 		cctx := lcConnCtx(obj)
 		if cctx == nil {
@@ -1322,7 +1606,7 @@ func lcRunWin(e *lcEnv) {
 			return
 		}
 		wobj.Store(fmt.Sprintf("%p", obj))
-		if mu := lcCtxMutex(cctx); mu != nil && spec.n == 0 {
+		if mu := lcCtxMutex(cctx); mu != nil && spec.n == 1 {
 			// hold the context's mutex until the queued caller comes for it behind the write loop
 			lcHoldCtx(mu, 8*lcPause, window)
 		} else {
@@ -1332,6 +1616,22 @@ func lcRunWin(e *lcEnv) {
 		}
 		t0.Store(time.Now().UnixNano())
 	})
+	k2ret := make(chan struct{})
+	if spec.n == 0 {
+		pr := lcPoints["reported"]
+		e.dir.on(pr, e.dir.hitCount(pr), func() {
+			select {
+			case window <- "yield":
+			default:
+			}
+			// K1 has its error: the write loop stands still until K2 — which takes the client as soon as K1 lets go
+			// of it — has returned
+			select {
+			case <-k2ret:
+			case <-time.After(lcWaitEvent / 10):
+			}
+		})
+	}
 	pa := lcPoints["afterCancel"]
 	e.dir.onEvery(pa, func(obj any) {
 		if w, _ := wobj.Load().(string); w != "" && w == fmt.Sprintf("%p", obj) && t0.Load() != 0 && delay.Load() == 0 {
@@ -1353,6 +1653,7 @@ func lcRunWin(e *lcEnv) {
 		k2 = e.start(context.Background(), e.id("p"))
 	}
 	e.wait(k2)
+	close(k2ret)
 	close(stop)
 	ph.record('p', k2)
 	widened := "no"
@@ -1385,7 +1686,7 @@ func lcRunDlk(e *lcEnv) {
 	e.exactDials = true
 	// the server drops the idle connection
 	e.net.mu.Lock()
-	c0 := e.net.conns[0]
+	c0 := e.net.conns[len(e.net.conns)-1] // the scenario client's connection (a Clone's is the last one dialed)
 	e.net.mu.Unlock()
 	c0.kill(io.EOF)
 	e.settle()
@@ -1691,9 +1992,15 @@ func lcSpecs(ctx *Ctx, dry lcDry) []string {
 				add(&lcSpec{fam: "rty", n: n, pt: "-", srv: how, next: "-", seed: seed})
 			}
 		}
-		// (f) a write error while a second caller is waiting, the cancellation of the connection delayed
-		for i := 0; i < ctx.N(8, 12); i++ {
-			for _, hammer := range []int{0, 0, 0, 4, 8} { // 0: hold the context's mutex; n > 0: poll Err() from n goroutines
+		// (f) a write error while a second caller is waiting: the write loop held at cli.write.reported (n = 0, directed);
+		// fallbacks that open the window from outside: the context's mutex held (n = 1), Err() polled (n > 1)
+		for _, kind := range []string{"hreset", "short", "reset", "late"} {
+			for i := 0; i < 2; i++ {
+				add(&lcSpec{fam: "win", n: 0, pt: "-", srv: "-", next: "-", seed: seed, faults: []*lcFault{{dir: 'w', conn: 0, k: w0, kind: kind}}})
+			}
+		}
+		for i := 0; i < ctx.N(6, 10); i++ {
+			for _, hammer := range []int{1, 1, 4} {
 				for _, kind := range []string{"hreset", "short"} {
 					add(&lcSpec{fam: "win", n: hammer, pt: "-", srv: "-", next: "-", seed: seed, faults: []*lcFault{{dir: 'w', conn: 0, k: w0, kind: kind}}})
 				}
@@ -1702,6 +2009,94 @@ func lcSpecs(ctx *Ctx, dry lcDry) []string {
 		// (g) unreachable server and a caller that gives up
 		add(&lcSpec{fam: "dlk", pt: "-", srv: "-", next: "-", seed: seed})
 		add(&lcSpec{fam: "dlk", pt: "-", srv: "-", next: "dl", seed: seed})
+		// (h) the other entry points of the client: the calls of a scenario are made through Batch (three items),
+		// an Executor.Then chain (four items, a sibling chain built from the same prefix), Roundtrip, Request; on a
+		// client with the library's middlewares; on a Clone (original closed / original open with an exchange
+		// pending on its own connection); on a client made by DialCluster. A selection of (a)-(g) for each.
+		for _, entry := range []string{"batch", "then", "rt", "req", "mw", "clone", "clone2", "cluster"} {
+			for _, pt := range []string{"loaded", "afterSend", "beforeRx", "inWrite", "queued"} {
+				for _, srv := range []string{"early", "late"} {
+					if (pt == "beforeRx" || pt == "queued") && srv != "early" {
+						continue
+					}
+					next := "-"
+					if srv == "late" {
+						next = "dl"
+					}
+					add(&lcSpec{fam: "c10", entry: entry, n: 3, pt: pt, srv: srv, next: next, seed: seed})
+				}
+			}
+			add(&lcSpec{fam: "c10", entry: entry, n: 2, pt: "afterSend", srv: "never", next: "twice", seed: seed})
+			add(&lcSpec{fam: "c10", entry: entry, n: 2, pt: "afterSend", srv: "early", next: "-", seed: seed,
+				faults: []*lcFault{{dir: 'r', conn: 0, k: r0 - 1, kind: "eof", timing: "data"}}})
+			for _, f := range []*lcFault{
+				{dir: 'w', conn: 0, k: w0, kind: "closed"},
+				{dir: 'w', conn: 0, k: w0, kind: "hreset"},
+				{dir: 'w', conn: 0, k: w0, kind: "short"},
+				{dir: 'w', conn: 0, k: w0, kind: "car"},
+				{dir: 'r', conn: 0, k: r0 - 1, kind: "eof", timing: "call"},
+				{dir: 'r', conn: 0, k: r0 - 1, kind: "reset", timing: "data"},
+				{dir: 'r', conn: 0, k: r0, kind: "partial", timing: "data"},
+				{dir: 'r', conn: 0, k: r0, kind: "closed", timing: "data"},
+			} {
+				for _, next := range []string{"call", "close", "cclose", "conc"} {
+					cp := *f
+					add(&lcSpec{fam: "flt", entry: entry, pt: "-", srv: "-", faults: []*lcFault{&cp}, next: next, seed: seed})
+				}
+			}
+			for _, second := range []*lcFault{
+				{dir: 'd', conn: 1, k: 0, kind: "refused"},
+				{dir: 'w', conn: 1, k: 0, kind: "closed"},
+				{dir: 'r', conn: 1, k: 0, kind: "eof", timing: "data", rep: 1},
+			} {
+				a, b := lcFault{dir: 'r', conn: 0, k: r0 - 1, kind: "eof", timing: "data"}, *second
+				add(&lcSpec{fam: "flt", entry: entry, pt: "-", srv: "-", faults: []*lcFault{&a, &b}, next: "call", seed: seed})
+			}
+			for _, pt := range []string{"loaded", "afterSend", "beforeRx"} {
+				add(&lcSpec{fam: "cls", entry: entry, n: 1, pt: pt, srv: "-", next: "-", seed: seed})
+			}
+			add(&lcSpec{fam: "cls", entry: entry, n: 0, pt: "beforeReconnect", srv: "-", next: "-", seed: seed, faults: []*lcFault{{dir: 'r', conn: 0, k: r0 - 1, kind: "eof", timing: "data"}}})
+			add(&lcSpec{fam: "cls", entry: entry, n: 1, pt: "beforeReconnect", srv: "-", next: "-", seed: seed, faults: []*lcFault{{dir: 'w', conn: 0, k: w0, kind: "closed"}}})
+			for _, n := range []int{1, 3, 4, 5} {
+				add(&lcSpec{fam: "rty", entry: entry, n: n, pt: "-", srv: "eof", next: "-", seed: seed})
+			}
+			add(&lcSpec{fam: "win", entry: entry, n: 0, pt: "-", srv: "-", next: "-", seed: seed, faults: []*lcFault{{dir: 'w', conn: 0, k: w0, kind: "hreset"}}})
+			add(&lcSpec{fam: "dlk", entry: entry, pt: "-", srv: "-", next: "dl", seed: seed})
+		}
+		// the abandoned call is ended by the deadline of the library's TimeoutMiddleware
+		for _, n := range []int{2, 3} {
+			for _, srv := range []string{"late", "never"} {
+				add(&lcSpec{fam: "c10", entry: "mwto", n: n, pt: "timeout", srv: srv, next: "-", seed: seed})
+			}
+		}
+		add(&lcSpec{fam: "c10", entry: "mwto", n: 2, pt: "timeout", srv: "never", next: "twice", seed: seed})
+		// Dial gives up a healthy connection (no common protocol version)
+		for _, entry := range []string{"", "cluster", "mw"} {
+			add(&lcSpec{fam: "neg", entry: entry, pt: "-", srv: "badver", next: "-", seed: seed})
+		}
+		// Dial's negotiation through DialCluster and with middlewares
+		for _, entry := range []string{"cluster", "mw"} {
+			add(&lcSpec{fam: "neg", entry: entry, pt: "-", srv: "-", next: "-", seed: seed})
+			add(&lcSpec{fam: "neg", entry: entry, pt: "-", srv: "-", next: "-", seed: seed, faults: []*lcFault{{dir: 'd', conn: 0, k: 0, kind: "refused"}}})
+			for k := 0; k < dry.nw; k++ {
+				for _, kind := range []string{"reset", "short", "hclosed"} {
+					add(&lcSpec{fam: "neg", entry: entry, pt: "-", srv: "-", next: "-", seed: seed, faults: []*lcFault{{dir: 'w', conn: 0, k: k, kind: kind}}})
+				}
+			}
+			for k := 0; k < dry.nr; k++ {
+				for _, kind := range []string{"eof", "reset", "partial"} {
+					tm := "data"
+					if k == dry.nr-1 {
+						tm = "call"
+					}
+					if kind == "partial" && tm == "call" {
+						continue
+					}
+					add(&lcSpec{fam: "neg", entry: entry, pt: "-", srv: "-", next: "-", seed: seed, faults: []*lcFault{{dir: 'r', conn: 0, k: k, kind: kind, timing: tm}}})
+					add(&lcSpec{fam: "neg", entry: entry, pt: "-", srv: "-", next: "-", seed: seed, faults: []*lcFault{{dir: 'r', conn: 0, k: k, kind: kind, timing: tm, rep: 4}}})
+				}
+			}
+		}
 	}
 	return out
 }
@@ -1709,7 +2104,14 @@ func lcSpecs(ctx *Ctx, dry lcDry) []string {
 func lcRegister(ctx *Ctx, r *lcResult) {
 	line := "# lts.cli " + r.Spec
 	if r.Fail != "" {
-		ctx.Res.Fail("lts.cli " + r.Spec + ": " + r.Fail)
+		// a scenario that could not be completed: the violations seen so far are reported; without any, it is a
+		// failure of the harness
+		for _, v := range r.Viol {
+			ctx.Res.Violate(report.Violation{Property: v.Property, Oracle: v.Oracle, Key: v.Key, Detail: v.Detail, Line: line})
+		}
+		if len(r.Viol) == 0 {
+			ctx.Res.Fail("lts.cli " + r.Spec + ": " + r.Fail)
+		}
 		return
 	}
 	if r.Scenario != "" && len(r.Viol) == 0 {
@@ -1832,7 +2234,8 @@ func runLtsCli(ctx *Ctx) {
 
 // observations of the form "did not happen within the time limit": on a loaded machine they can be artefacts.
 var lcTimingKeys = []string{"lts.cli:call-hangs", "lts.cli:dial-hangs", "lts.cli:second-close-hangs", "lts.cli:process-hangs",
-	"lts.cli:goroutines-after-close", "lts.cli:goroutines-after-failed-dial", "lts.cli:broken-connection-not-terminated"}
+	"lts.cli:goroutines-after-close", "lts.cli:goroutines-after-failed-dial", "lts.cli:broken-connection-not-terminated",
+	"lts.cli:connection-open-after-failed-dial"}
 
 func lcTimingOnly(r *lcResult) bool {
 	if len(r.Viol) == 0 {
